@@ -236,6 +236,38 @@ LEAVES = ("do_gen_pawn_single", "do_gen_pawn_double", "do_gen_pawn_capture", "ge
           "gen_castling")
 
 
+_folder = {}
+
+
+def const_reachable_blocks(facts, fn):
+    """Blocks reachable from the entry when switches on compile-time constants (const generics, associated
+    constants of the colour parameter) only take their constant edge."""
+    from .expr import Builder
+    if id(facts) not in _folder:
+        _folder[id(facts)] = (Builder(facts), FxBuilder(facts))
+    b, fx = _folder[id(facts)]
+    body = fn.body
+    seen = set()
+    stack = [0]
+    while stack:
+        x = stack.pop()
+        if x in seen:
+            continue
+        seen.add(x)
+        t = body.blocks[x]["term"]
+        if t["k"] == "switch":
+            c = fx.fold(b.operand(body, t["d"]))
+            if c is not None:
+                nxt = t["else"]
+                for v, tb in t["cases"]:
+                    if int(v) == c[1]:
+                        nxt = tb
+                stack.append(nxt)
+                continue
+        stack.extend(body.succ(x))
+    return seen
+
+
 def emitter_set(facts, root):
     """Leaf emitters reachable from a MoveGenImpl method instance: set of (leaf name, colour, const generics, constant piece)."""
     from .expr import Builder
@@ -248,7 +280,10 @@ def emitter_set(facts, root):
         if fn.id in seen:
             continue
         seen.add(fn.id)
+        live = const_reachable_blocks(facts, fn)
         for bi, t in fn.body.calls():
+            if bi not in live:
+                continue
             f = t["f"]
             if "inst" not in f:
                 continue
